@@ -55,6 +55,9 @@ pub struct KnownFinding {
     pub operation: String,
     pub fingerprint: String,
     pub what_fails: String,
+    /// open findings: the specific failing input, a replay file relative to the /verif directory
+    #[serde(default)]
+    pub replay: Option<String>,
 }
 
 #[derive(Serialize, Deserialize, Clone, Debug, Default)]
@@ -787,6 +790,28 @@ pub fn check<P: Property>(p: &P, opt: &Options) -> i32 {
         }
     }
 
+    // every listed open finding is also executed on its own recorded input, so that its line is
+    // printed on every run of the check and not only when the search happens to meet it
+    for k in &known.findings {
+        if k.property != p.id() || k.status != "open" {
+            continue;
+        }
+        let Some(rel) = &k.replay else { continue };
+        let listed = std::fs::read_to_string(opt.verif_dir.join(rel)).ok().and_then(|t| serde_json::from_str::<ReplayFile>(&t).ok()).and_then(|file| {
+            let sc: P::Scenario = serde_json::from_value(file.scenario.clone()).ok()?;
+            let vectors: Vec<Vector> = file.vectors.iter().map(|v| Vector { orders: v.orders.clone(), draws: v.draws.clone() }).collect();
+            let (viol, _) = evaluate_explicit(p, &sc, &vectors);
+            Some(viol.iter().any(|v| v.class == k.class && v.operation == k.operation && p.fingerprints(&sc, v).contains(&k.fingerprint)))
+        });
+        match listed {
+            Some(true) => *known_matched.entry(k.id.clone()).or_insert(0) += 1,
+            Some(false) => out(&format!("NOTE: the listed finding {} does not show on its recorded input {} on this tree", k.id, rel)),
+            None => {
+                out(&format!("HARNESS-ERROR cannot read or run the recorded input {} of the listed finding {}", rel, k.id));
+                return 2;
+            }
+        }
+    }
     for k in &known.findings {
         if k.property == p.id() && k.status == "open" && known_matched.contains_key(&k.id) {
             out(&format!("KNOWN-FINDING: property={} {} [{}; matched in {} runs]", p.id(), k.what_fails, k.id, known_matched[&k.id]));
